@@ -144,6 +144,8 @@ type Engine struct {
 	fastDecisions int
 	top          *frame
 	curInitPkg   *ssa.Package
+	syncMaps     map[*Value]*Map // contents of sync.Map values
+	syncMapOp    bool            // inside a sync.Map operation (internally synchronised: no race reports)
 	poolItems    map[*Value][]Value
 	poolVCs      map[*Value][]vclock // release clocks of the Put objects (Put happens-before the Get that returns the object)
 	poolDirty    bool
